@@ -134,7 +134,7 @@ function project(c, acorn, run) {
     for (const n of free) if (run.BUILTINS.has(n)) out('builtin ' + n);
     // the environment space varies at most three free names (a, b, ... in alphabetical order); `out` is the sink
     // (logging host function) and the other free names stay undeclared
-    const vary = free.filter((n) => n !== 'out').slice(0, 3);
+    const vary = free.filter((n) => n !== 'out').slice(0, c.maxvary || 3);
     res.inp = program(pin.ast);
     res.outp = program(pout.ast);
     res.free = free;
